@@ -3,7 +3,9 @@ from .. import checklib, artefacts, tvcheck, tv, tlc
 
 
 def run(ctx):
-    art = artefacts.collect(ctx, n_corpus=(120, None), gen_modules=(("Gen_C05.tla", 2), ("Gen_C10.tla", 2), ("Gen_C02.tla", 16)))
+    art = artefacts.collect(ctx, n_corpus=(120, None), gen_modules=(("Gen_C05.tla", 2), ("Gen_C10.tla", 2), ("Gen_C02.tla", 16), ("Gen_C09.tla", 5), ("Gen_C06.tla", 2), ("Gen_C07.tla", 3)),
+                             keep=lambda p: not (p["id"].startswith("imm-") and p["id"].endswith("-r"))
+                             and not (p["id"].startswith("isa-wr-") and p["id"].rstrip("yz") != p["id"]))   # see C10 / C12
     two = [c for c in art.cases if len(c["obs"]) == 2]
     r, s = tv.run_tv(two, art.il_subs, art.c_subs, ctx.devsets(), tvcheck.nb(ctx.tier), ctx.seed, timeout=7200, static=True)
     if r.states == 0 or (r.error_text and "nvariant" not in r.error_text):
@@ -16,11 +18,22 @@ def run(ctx):
     for cid, rep in differ.items():
         ctx.violation("the two layouts of %s denote different effects / attributes (input %d): %s" % (cid, rep["k"], artefacts.case_text(art, cid)),
                       {"kind": "layouts", "id": cid, "report": rep, "text": artefacts.case_text(art, cid)})
-    # both layouts must be well-formed and well-sorted as well
+    # well-formedness / well-sortedness must not depend on the layout: a defect that BOTH layouts have is the matter of
+    # C10 / C11 / C12 (and of their listed findings); a defect that only one layout has is a violation of C16
+    import re as _re
+    by_id = {}
     for x in tvcheck.uniq_reports(s.reports["STREPORT"]):
-        if x.get("sort") or x.get("emitc"):
-            ctx.violation("layout %s of %s is not well-formed/well-sorted: %s %s" % (x["fmt"], x["id"], x.get("sort"), x.get("emitc")),
-                          {"kind": "layout-static", "report": x})
+        # ownership reports ("own...": an IL node left unconsumed / used twice) do not change what the effect denotes: C12
+        if x.get("sort") or (x.get("emitc") and not x["emitc"].startswith("own")):
+            cls = (_re.sub(r"[A-Za-z_]+_\d+\b|\b\d+\b", "#", x.get("sort") or ""), _re.sub(r"[A-Za-z_]+_\d+\b|\b\d+\b", "#", x.get("emitc") or ""))
+            by_id.setdefault(x["id"], {})[x["fmt"]] = (cls, x)
+    for cid, d in by_id.items():
+        classes = {f: v[0] for f, v in d.items()}
+        if len(d) < 2 or len(set(classes.values())) > 1:
+            x = sorted(d.items())[0][1][1]
+            ctx.violation("only layout %s of %s is not well-formed/well-sorted (or the layouts fail differently): %s %s -- %s" % (
+                "/".join(sorted(d)), cid, x.get("sort"), x.get("emitc"), artefacts.case_text(art, cid)),
+                {"kind": "layout-static", "reports": [v[1] for v in d.values()], "text": artefacts.case_text(art, cid)})
     # acceptance must not depend on the layout (c01.build reports it for corpus instructions)
     cov = {
         "programs": len(two), "disagreements_checked": len(differ),
